@@ -278,7 +278,10 @@ namespace glm
 		detail::float_t<float> const a(x);
 		detail::float_t<float> const b(y);
 
-		return abs(a.i - b.i);
+		// Map the sign-magnitude bit patterns onto one ordered integer line (+0 and -0 coincide)
+		int const ai = a.i < 0 ? std::numeric_limits<int>::min() - a.i : a.i;
+		int const bi = b.i < 0 ? std::numeric_limits<int>::min() - b.i : b.i;
+		return abs(ai - bi);
 	}
 
 	GLM_FUNC_QUALIFIER int64 floatDistance(double x, double y)
@@ -286,6 +289,9 @@ namespace glm
 		detail::float_t<double> const a(x);
 		detail::float_t<double> const b(y);
 
-		return abs(a.i - b.i);
+		// Map the sign-magnitude bit patterns onto one ordered integer line (+0 and -0 coincide)
+		int64 const ai = a.i < 0 ? std::numeric_limits<int64>::min() - a.i : a.i;
+		int64 const bi = b.i < 0 ? std::numeric_limits<int64>::min() - b.i : b.i;
+		return abs(ai - bi);
 	}
 }//namespace glm
